@@ -14,7 +14,20 @@ if REPO not in sys.path:
 _installed = False
 
 
+_VAR_NAME_CACHE = {}
+
+
 def _get_var_name(frame):
+    """Memoised on (code object, instruction offset): the answer depends on nothing else."""
+    key = (frame.f_code, frame.f_lasti)
+    try:
+        return _VAR_NAME_CACHE[key]
+    except KeyError:
+        r = _VAR_NAME_CACHE[key] = _get_var_name_uncached(frame)
+        return r
+
+
+def _get_var_name_uncached(frame):
     code = frame.f_code
     lasti = frame.f_lasti
     instrs = list(dis.get_instructions(code))
